@@ -90,6 +90,29 @@ if A.get("fail_write") is not None:
         return _real_open(file, mode, *a, **k)
     builtins.open = _open
 
+if A.get("fail_shard") is not None:
+    # the disk fills up while the k-th shard *file* of this session is written (fb / npz: the file is opened by Python): a partial file
+    # is left at the shard's name and the close raises.  With `swallow` the caller treats a failing write_example as "skip this example"
+    # and keeps using the filler — an error path, no crash involved.
+    import builtins, io, errno as _errno
+    _cnt_fs = {"k": 0}
+    def _mk_open(real):
+        def _open(file, mode="r", *a, **k):
+            try:
+                pth = os.path.abspath(os.fspath(file))
+            except TypeError:
+                return real(file, mode, *a, **k)
+            if pth.startswith(ROOT + "/") and pth.endswith((".fb", ".npz")) and any(c in str(mode) for c in "wxa"):
+                _cnt_fs["k"] += 1
+                if _cnt_fs["k"] == A["fail_shard"]:
+                    with real(pth, "wb") as fh: fh.write(b"PK\x03\x04 partial")
+                    raise OSError(_errno.ENOSPC, "No space left on device", pth)
+            return real(file, mode, *a, **k)
+        return _open
+    _patched = _mk_open(builtins.open)
+    builtins.open = _patched
+    io.open = _patched
+
 import sedpack.io.dataset_writing as DW  # noqa: E402
 _cnt = {"k": A.get("uuid_base", 0)}
 class _FakeUUID:
@@ -105,6 +128,17 @@ state["active"] = True
 written = {0: [], 1: [], 2: []}
 v = A["base"]
 err = None
+swallowed = []
+def _write(f, s):
+    """one write_example; with `swallow` a failure is the caller's cue to skip the example (it stays *allowed*, not required)"""
+    global v
+    written[s].append(v)
+    try:
+        f.write_example(values=sp.val(v), split=SPLITS[s])
+    except Exception as e:  # noqa: BLE001
+        if not A.get("swallow"): raise
+        swallowed.append(f"{type(e).__name__}: {str(e)[:80]}")
+    snap("after-write", {"ex": v, "split": s}); v += 1
 try:
     if A["kind"] == "multi":
         def feed(filler, plan):
@@ -112,20 +146,18 @@ try:
             with filler as f:
                 for s, n in plan:
                     for _ in range(n):
-                        f.write_example(values=sp.val(v), split=SPLITS[s]); written[s].append(v)
-                        snap("after-write", {"ex": v, "split": s}); v += 1
+                        _write(f, s)
             return 0
         ds.write_multiprocessing(feed_writer=feed, custom_arguments=[(p,) for p in A["writers"]], single_process=True, consistency_check=False)
     else:
         with DatasetFiller(ds, relative_path_from_split=pathlib.Path(A["sub"])) as f:
             for s, n in A["writes"]:
                 for _ in range(n):
-                    f.write_example(values=sp.val(v), split=SPLITS[s]); written[s].append(v)
-                    snap("after-write", {"ex": v, "split": s}); v += 1
+                    _write(f, s)
 except Exception as e:  # noqa: BLE001
     err = f"{type(e).__name__}: {e}"
 snap("end")
 state["active"] = False
-open(sys.argv[2], "w").write(json.dumps({"log": state["log"], "written": written, "error": err, "next": v}))
+open(sys.argv[2], "w").write(json.dumps({"log": state["log"], "written": written, "error": err, "next": v, "swallowed": swallowed}))
 sys.stdout.flush()
 os._exit(0)
